@@ -1,4 +1,7 @@
 ENGINES = [
+    {"name": "towersim (E1)", "path": "harness/src/{e1,model,world,tower,chain,node,snap}.rs", "serves_properties": ["C01", "C02", "C04", "C06", "C07", "C08", "C09", "C11"],
+     "kind_free_text": "the real tower components in one process against a simulated chain and node; a sequential reference model (TowerModel) and "
+                       "per-property monitors compare replies, sqlite rows, private-API answers and the node RPC log after every step"},
     {"name": "pure (E6)", "path": "harness/src/pure_*.rs", "serves_properties": ["C17", "C19", "C20", "C07"],
      "kind_free_text": "direct calls into the real library code with an independent reference oracle, seeded generators, per-case monitors"},
 ]
@@ -6,7 +9,23 @@ ENGINES = [
 NOTES = ("Runtime monitoring family: every check runs the real rust-teos code (path dependency on /repo, rebuilt on every invocation) "
          "under generated workloads with monitors/oracles written from the property statements. See DESIGN.md.")
 
+def _e1meta(ref, text):
+    return {
+        "engine": "towersim (E1)", "level": "exploration", "design_ref": ref,
+        "technique": "runtime monitoring: reference-model oracle + offline checker over the recorded RPC/event log, evaluated after every step of seeded hostile histories",
+        "text": text + " Held on every history executed in the run (thousands per run, each with tens to hundreds of checked steps); sampled histories, nothing is proved.",
+        "note": "Simulated chain/node at the tower's real boundaries; sequential histories; in-process bootstrap mirrors main.rs; model written from the statements (DESIGN.md appendix A).",
+    }
+
+
 META = {
+    "C01": _e1meta("DESIGN.md §4 C01", "Every breach of an accepted appointment creates an obligation that the RPC-log checker must see discharged inside the block's delivery window (or before the reply)."),
+    "C02": _e1meta("DESIGN.md §4 C02", "Every single sendrawtransaction the tower issues is checked for a justification by the model at its log position."),
+    "C04": _e1meta("DESIGN.md §4 C04", "Responded appointments are followed through reorgs (depth up to 100), re-submission cadence, confirmation bookkeeping and the exact 100-confirmation completion/refund."),
+    "C06": _e1meta("DESIGN.md §4 C06", "Success iff the signature is by a registered unexpired user over exactly the request's message; failures change nothing; other users' records are byte-identical after every request."),
+    "C07": _e1meta("DESIGN.md §4 C07", "Slot ledger conservation after every step with the balance read from reply, memory and disk; plus the slot formula for every length 0..4 MiB (that sub-space exhaustively)."),
+    "C08": _e1meta("DESIGN.md §4 C08", "Every receipt is verified with the client-side verifier from exactly the returned fields; stored rows and read-backs are compared byte for byte with the last accepted version."),
+    "C09": _e1meta("DESIGN.md §4 C09", "Expiry errors, renewals and purges are checked at exactly the promised heights over small (slots, duration, grace) grids, multi-block polls and reorgs."),
     "C17": {
         "engine": "pure (E6)", "level": "exploration", "design_ref": "DESIGN.md §4 C17",
         "technique": "runtime oracle over generated inputs (round-trip / mutation monitors on the real cryptography functions)",
